@@ -5,9 +5,12 @@ import Spydr.Names.Props.C17
 #print axioms Spydr.Names.makeValid_fresh_bounded
 #print axioms Spydr.Names.rename_recorded
 #print axioms Spydr.Names.rename_written
+#print axioms Spydr.Names.reread_name
 #print axioms Spydr.Names.assign_all_distinct
+#print axioms Spydr.Names.assign_all_netIdents_distinct
 #print axioms Spydr.Names.assign_all_scopeOk
 #print axioms Spydr.Names.pinned_violates_scopeOk
 #print axioms Spydr.Names.pinned_violates_legal_dash
 #print axioms Spydr.Names.pinned_violates_legal_length
 #print axioms Spydr.Names.pinned_violates_legal_suffix
+#print axioms Spydr.Names.unrepaired_violates_netIdents
